@@ -5,6 +5,7 @@ package checks
 import (
 	"fmt"
 	"go/types"
+	"os"
 	"sort"
 	"strings"
 	"sync"
@@ -24,6 +25,7 @@ type Ctx struct {
 	mu       sync.Mutex
 	namer    *absint.Analyzer
 	maxSteps int
+	cw       *connWriteSummary
 }
 
 // Check is a property driver.
@@ -154,7 +156,7 @@ func (c *Ctx) NewE1(home *ssa.Package, opaqueCross bool) *absint.Analyzer {
 	if c.Tier == "thorough" {
 		a.K = 96
 		a.MaxDepth = 18
-		a.MaxSteps = 12_000_000
+		a.MaxSteps = 120_000_000
 		a.Deadline = time.Now().Add(60 * time.Minute)
 	}
 	if opaqueCross {
@@ -234,6 +236,9 @@ func (c *Ctx) RunE1(entries []*ssa.Function, opaqueCross bool, pre Pre) []*E1Res
 			}()
 			r.Undecided = append(r.Undecided, a.Undecided...)
 			r.Wall = time.Since(t0).Seconds()
+			if os.Getenv("JTVERIF_STEPS") != "" {
+				fmt.Printf("STEPS %-70s %9d  %.1fs undecided=%d\n", shortFn(fn), a.StepsUsed, r.Wall, len(r.Undecided))
+			}
 			c.mu.Lock()
 			if a.StepsUsed > c.maxSteps {
 				c.maxSteps = a.StepsUsed
@@ -308,6 +313,7 @@ func (c *Ctx) E1Rules() {
 	r["E1.panic"] = "no explicit panic is reachable"
 	r["E1.typeassert"] = "type assertions without comma-ok cannot fail"
 	r["E1.progress"] = "a loop whose guard compares a loop-carried integer with a loop-invariant bound (for i < n, for i > 0) moves that integer towards the bound by at least 1 on every path back to its head (no input makes the loop spin); loops with other guards get no obligation"
+	r["E1.rangefunc"] = "a range-over-func iterator never calls its yield function again after the loop body asked it to stop (the compiler's loop-state check `yield function called after range loop exit` is unreachable)"
 	r["E1.undecided"] = "the analyser finished within its budgets and met no unsupported construct"
 }
 
@@ -317,7 +323,7 @@ func (c *Ctx) E1Assumptions() {
 		"entry parameters and pointer fields of unknown objects are non-nil; byte contents, lengths and all receiver fields are arbitrary",
 		"library functions without a model are total, return unconstrained values and do not modify memory reachable from their arguments (listed under coverage.assumed_total)",
 		"user callbacks (function-typed option fields, interface values implemented outside the repository) are total and do not mutate or retain their arguments",
-		"compiler-generated range-over-func protocol panics are exempt",
+		"compiler-generated range-over-func bookkeeping panics other than `yield called after loop exit` (which is decided: E1.rangefunc) are exempt",
 		"error-typed package variables assigned once in their initialiser from errors.New are non-nil (checked per variable)",
 	)
 }
